@@ -225,3 +225,157 @@ func TestVerifE7Less(t *testing.T) {
 	}
 	fmt.Printf("E7-LESS cases=%d hist=%v\n", out.N, hist)
 }
+
+// ------------------------------------------------------------------ stream "add": TopicStats.Add / ChannelStats.Add themselves
+//
+// A direct differential of the two aggregation methods (audit 7, C34): random sequences of per-node reports built as Go
+// values (not through JSON: nil and empty sub-slices, negative and huge counters, a missing latency document are all
+// reachable), folded by the REAL Add into a fresh aggregate exactly as topicHandler / GetNSQDStats do, rendered through
+// the same canonical rendering as the views (every integer field, paused, node list, client list, merged channels).
+//
+// Op line:   add topic <name> <k> { <node> <host> <name> <paused> <e2e> <8 ints> <nch> { chan } }
+//            add channel <name> <k> { chan }        chan = <node> <host> <topic> <name> <paused> <e2e> <13 ints> <ncl> { <host> <id> }
+// Impl line: as the topic / channel view:  200 0 T/… N[…] C[…]   |   200 0 C/…   |   panic <message>
+
+func vfE7AddCounter(r *vfRand) int64 {
+	switch r.Intn(9) {
+	case 0:
+		return int64(r.Next()>>1) - int64(r.Next()>>1) // anywhere in int64
+	case 1:
+		return -int64(r.Intn(1000))
+	case 2:
+		return int64(1)<<62 + int64(r.Intn(1000)) // two of them wrap
+	case 3:
+		return -(int64(1) << 62) - int64(r.Intn(1000))
+	}
+	return vfE7Counter(r)
+}
+
+type vfE7AddChan struct {
+	c      *clusterinfo.ChannelStats
+	tokens string
+}
+
+func vfE7AddGenChan(r *vfRand, node, host, topic, name string) vfE7AddChan {
+	c := &clusterinfo.ChannelStats{Node: node, Hostname: host, TopicName: topic, ChannelName: name, Paused: r.Intn(4) == 0}
+	v := make([]int64, 13)
+	for i := range v {
+		v[i] = vfE7AddCounter(r)
+	}
+	c.Depth, c.MemoryDepth, c.BackendDepth, c.InFlightCount, c.DeferredCount, c.RequeueCount, c.TimeoutCount = v[0], v[1], v[2], v[3], v[4], v[5], v[6]
+	c.MessageCount, c.DeliveryMsgCount, c.ZoneLocalMsgCount, c.RegionLocalMsgCount, c.GlobalMsgCount = v[7], v[8], v[9], v[10], v[11]
+	c.ClientCount = int(v[12])
+	e2e := r.Intn(5) != 0
+	if e2e {
+		c.E2eProcessingLatency = &quantile.E2eProcessingLatencyAggregate{}
+	}
+	var sb strings.Builder
+	fmt.Fprintf(&sb, "%s %s %s %s %s %s", vfE7S(node), vfE7S(host), vfE7S(topic), vfE7S(name), vfE7B(c.Paused), vfE7B(e2e))
+	for _, x := range v {
+		fmt.Fprintf(&sb, " %d", x)
+	}
+	ncl := r.Intn(4)
+	if ncl == 3 {
+		ncl = 0
+		c.Clients = clusterinfo.ClientStatsList{} // empty, not nil
+	}
+	fmt.Fprintf(&sb, " %d", ncl)
+	for i := 0; i < ncl; i++ {
+		k := &clusterinfo.ClientStats{Node: node, Hostname: vfE7HostPool[r.Intn(len(vfE7HostPool))] + "-cl", ClientID: fmt.Sprintf("id%d", r.Intn(4))}
+		c.Clients = append(c.Clients, k)
+		fmt.Fprintf(&sb, " %s %s", k.Hostname, k.ClientID)
+	}
+	return vfE7AddChan{c, sb.String()}
+}
+
+func vfE7AddRun(kind, name string, topics []*clusterinfo.TopicStats, chans []*clusterinfo.ChannelStats) (out string) {
+	defer func() {
+		if r := recover(); r != nil {
+			out = fmt.Sprintf("panic %v", r)
+		}
+	}()
+	cl := &vfE7VCluster{sym: map[string]string{}}
+	if kind == "topic" {
+		agg := &clusterinfo.TopicStats{TopicName: name}
+		for _, t := range topics {
+			agg.Add(t)
+		}
+		js, err := json.Marshal(agg)
+		if err != nil {
+			return "marshal-error " + err.Error()
+		}
+		return cl.render("topic", 200, js)
+	}
+	agg := &clusterinfo.ChannelStats{ChannelName: name}
+	for _, c := range chans {
+		agg.Add(c)
+	}
+	js, err := json.Marshal(agg)
+	if err != nil {
+		return "marshal-error " + err.Error()
+	}
+	return cl.render("channel", 200, js)
+}
+
+func TestVerifE7Add(t *testing.T) {
+	out := vfOpen("add")
+	defer out.Close()
+	rng := vfNewRand(0xE7ADD)
+	hist := map[string]int{}
+	n := vfEnvInt("VERIF_N", 300)
+	chanNames := []string{"c1", "c2", "archive", "x.y"}
+	for i := 0; i < n; i++ {
+		k := rng.Intn(5)
+		if i%2 == 0 {
+			var topics []*clusterinfo.TopicStats
+			var sb strings.Builder
+			fmt.Fprintf(&sb, "add topic t1 %d", k)
+			for j := 0; j < k; j++ {
+				node, host := fmt.Sprintf("N%d", rng.Intn(4)), vfE7HostPool[rng.Intn(len(vfE7HostPool))]
+				tp := &clusterinfo.TopicStats{Node: node, Hostname: host, TopicName: "t1", Paused: rng.Intn(4) == 0}
+				v := make([]int64, 8)
+				for x := range v {
+					v[x] = vfE7AddCounter(rng)
+				}
+				tp.Depth, tp.MemoryDepth, tp.BackendDepth, tp.MessageCount, tp.DeliveryMsgCount = v[0], v[1], v[2], v[3], v[4]
+				tp.ZoneLocalMsgCount, tp.RegionLocalMsgCount, tp.GlobalMsgCount = v[5], v[6], v[7]
+				e2e := rng.Intn(5) != 0
+				if e2e {
+					tp.E2eProcessingLatency = &quantile.E2eProcessingLatencyAggregate{}
+				}
+				fmt.Fprintf(&sb, " %s %s t1 %s %s", node, host, vfE7B(tp.Paused), vfE7B(e2e))
+				for _, x := range v {
+					fmt.Fprintf(&sb, " %d", x)
+				}
+				nch := rng.Intn(4)
+				if nch == 3 && rng.Intn(2) == 0 {
+					nch = 0
+					tp.Channels = []*clusterinfo.ChannelStats{}
+				}
+				fmt.Fprintf(&sb, " %d", nch)
+				for c := 0; c < nch; c++ {
+					ch := vfE7AddGenChan(rng, node, host, "t1", chanNames[rng.Intn(len(chanNames))])
+					tp.Channels = append(tp.Channels, ch.c)
+					sb.WriteString(" " + ch.tokens)
+				}
+				topics = append(topics, tp)
+			}
+			impl := vfE7AddRun("topic", "t1", topics, nil)
+			out.Case(sb.String(), impl)
+			hist[fmt.Sprintf("topic:k%d:%s", k, strings.Fields(impl)[0])]++
+		} else {
+			var chans []*clusterinfo.ChannelStats
+			var sb strings.Builder
+			fmt.Fprintf(&sb, "add channel c1 %d", k)
+			for j := 0; j < k; j++ {
+				ch := vfE7AddGenChan(rng, fmt.Sprintf("N%d", rng.Intn(4)), vfE7HostPool[rng.Intn(len(vfE7HostPool))], "t1", "c1")
+				chans = append(chans, ch.c)
+				sb.WriteString(" " + ch.tokens)
+			}
+			impl := vfE7AddRun("channel", "c1", nil, chans)
+			out.Case(sb.String(), impl)
+			hist[fmt.Sprintf("channel:k%d:%s", k, strings.Fields(impl)[0])]++
+		}
+	}
+	fmt.Printf("E7-ADD cases=%d hist=%v\n", out.N, hist)
+}
